@@ -324,7 +324,14 @@ def c02(ctx):
 
 # ---------------------------------------------------------------- C07 / C01
 
+def model_codec(ctx):
+    """Model-level theorems: reference encoders and decoders are mutually consistent on every enumerated stream."""
+    core.tlc_model_check(ctx, "ModelCodec", dict(MaxEvents=5 if ctx.quick else 6, MaxDepth=2, MaxRich=1, MaxDocs=1, WithExt=True),
+                         ["PrefixOK", "CborRoundTrip", "UbjsonRoundTrip", "JsonRoundTrip", "Transcode"], "ModelCodec")
+
+
 def c07(ctx):
+    model_codec(ctx)
     shapes = gen_events(ctx)
     cases = stream_cases(ctx, "C07", "encode", shapes)
     tf, st = core.run_harness(ctx, cases)
@@ -369,6 +376,7 @@ def is_container_doc(fmt, doc):
 
 def c08(ctx):
     rnd = ctx.rng
+    model_codec(ctx)
     cases = []
     per = 1500 if ctx.quick else 20000
     n = 0
@@ -518,6 +526,14 @@ def compositions(n):
 
 def c18(ctx):
     rnd = ctx.rng
+    # implementation-shaped model of the Next loop under the io.Reader contract: safety + liveness for every reader
+    # behaviour within the bounds, and the livelock of a zero-length read buffer as negative control
+    for (l1, l2, l3, buf, cut) in ([(2, 1, 3, 3, 0), (2, 1, 3, 1, 0), (2, 1, 3, 2, 1), (1, 2, 0, 1, 1)] if ctx.quick else
+                                   [(a, b, c, buf, cut) for (a, b, c) in ((2, 1, 3), (1, 1, 1), (3, 0, 0), (2, 2, 0)) for buf in (1, 2, 3, 5) for cut in (0, 1)]):
+        core.tlc_model_check(ctx, "ImplDecoder", dict(L1=l1, L2=l2, L3=l3, BufLen=buf, MaxZero=2, Cut=cut),
+                             ["OneValuePerNext", "CleanEnd", "TruncationIsError", "AllDelivered", "CutIsNeverClean"],
+                             "ImplDecoder-%d%d%d-buf%d-cut%d" % (l1, l2, l3, buf, cut), workers=2, properties=["Termination", "Completes"])
+    core.tlc_expect_violation(ctx, "ImplDecoder", dict(L1=2, L2=1, L3=0, BufLen=0, MaxZero=2, Cut=0), "Termination", "ImplDecoder-zero-length-buffer", temporal=True)
     cases = []
     nstreams = 250 if ctx.quick else 2000
     maxall = 7 if ctx.quick else 10
